@@ -116,7 +116,10 @@ fn contexts(member: &str, alone: Option<&'static str>) -> Vec<Ctxt> {
                     if let Some(pos) = m.iter().position(|(k2, _)| k2 == k) {
                         let e = m.remove(pos);
                         m.insert(0, e);
-                        if !accepts_reordered(&s.target, &V::M(m.clone())) {
+                        // probe with the list emptied: the probe must not depend on what the list holds
+                        let mut probe = m.clone();
+                        probe[0].1 = V::A(vec![]);
+                        if !accepts_reordered(&s.target, &V::M(probe)) {
                             continue; // a decoder that insists on canonical order: nothing to assert
                         }
                         out.push(Ctxt { label: format!("{}{} (sent first)", s.label, member), target: s.target.clone(), wire: V::M(m), path: site.path.clone() });
